@@ -3,7 +3,7 @@ import hashlib
 
 from lib import mon
 
-SHARDS = 8
+SHARDS = 16
 LEVEL = "fault_enumeration"
 MAGIC = bytes.fromhex('706e0bc5')          # ton.blockId constructor id 0xc50b6e70, little-endian on the wire
 
